@@ -25,7 +25,7 @@ RULE = ('abstract models from harness/py/gen_model.py: 1..3 templates with value
 NOISE = st.fixed_dictionaries({
     'doctype': st.booleans(), 'cdata': st.booleans(), 'attr_swap': st.booleans(), 'comments': st.booleans(), 'nails': st.booleans(),
     'inst_in_system': st.booleans(), 'ws': st.booleans(), 'indent': st.sampled_from(['\t', '  ', '']), 'nl': st.sampled_from(['\n', '\n\n', ' ']),
-    'empty_decl': st.booleans(), 'empty_param': st.booleans(), 'rate_first': st.booleans(), 'split': st.one_of(st.just(0), st.just(0), st.integers(1, 10 ** 6))})
+    'empty_decl': st.booleans(), 'empty_param': st.booleans(), 'rate_first': st.booleans(), 'split': st.one_of(st.just(0), st.just(0), st.integers(1, 10 ** 6)), 'edge_label_order': st.one_of(st.just(0), st.integers(1, 10 ** 6))})
 
 
 def classes_of(m):
